@@ -459,6 +459,7 @@ func runC12(c *mon.Ctx) {
 		c12Run(c, cs, base)
 	}
 	c12Swap(c, base)
+	c12FileSizeLimit(c, base)
 	if ents, err := os.ReadDir(base); err == nil && len(ents) > 0 && c.ReplayCase == "" {
 		var names []string
 		for _, e := range ents {
